@@ -798,6 +798,8 @@ class KernelCpu:
                             f"Argument `{arg.name}`: arrays in non-native byte "
                             f"order ({value.dtype.str}) are not supported"
                         )
+                    if value.ndim == 0:  # value[()] would be a scalar copy
+                        value = value.reshape(1)
                     slice_first_elem = value[tuple(value.ndim * [slice(0, 1)])]
                     return self.ffi_interface.cast(
                         dtype2ctype(value.dtype) + "*",
